@@ -26,7 +26,7 @@ def parseErr (s : String) : Option Err :=
   | "closed" => some .closed
   | "invalid" => some .invalid
   | "internal" => some .internal
-  | _ => some (.other 0)
+  | s => if s.startsWith "other" then some (.other ((s.drop 5).toString.toNat?.getD 0)) else some (.other 0)
 
 def parseRecs (s : String) : Option (List Record) :=
   (splitList s ';').mapM fun t =>
